@@ -42,6 +42,7 @@ _Static_assert(SCPI_REG_COUNT >= 10, "the ten standard registers come first; use
 
 #define NREG 10
 static const char * const regname[NREG] = { "STB", "SRE", "ESR", "ESE", "OPER", "OPERE", "OPERC", "QUES", "QUESE", "QUESC" };
+static const char * rname(unsigned a) { static char t[4][16]; static int k; char * b = t[k++ & 3]; if (a < NREG) return regname[a]; snprintf(b, 16, "USER%u", a - NREG); return b; }
 enum { G_ESR, G_OPER, G_QUES, NG };
 static const int g_event[NG] = { SCPI_REG_ESR, SCPI_REG_OPER, SCPI_REG_QUES };
 static const int g_enable[NG] = { SCPI_REG_ESE, SCPI_REG_OPERE, SCPI_REG_QUESE };
@@ -128,9 +129,9 @@ static int op_class(const op_t * op) {
 
 static void op_text(vh_buf_t * b, const op_t * op) {
     switch (op->kind) {
-        case K_SET: vh_buf_printf(b, "SCPI_RegSet(%s,0x%04x)", regname[op->a], op->val); break;
-        case K_SETBITS: vh_buf_printf(b, "SCPI_RegSetBits(%s,0x%04x)", regname[op->a], op->val); break;
-        case K_CLRBITS: vh_buf_printf(b, "SCPI_RegClearBits(%s,0x%04x)", regname[op->a], op->val); break;
+        case K_SET: vh_buf_printf(b, "SCPI_RegSet(%s,0x%04x)", rname(op->a), op->val); break;
+        case K_SETBITS: vh_buf_printf(b, "SCPI_RegSetBits(%s,0x%04x)", rname(op->a), op->val); break;
+        case K_CLRBITS: vh_buf_printf(b, "SCPI_RegClearBits(%s,0x%04x)", rname(op->a), op->val); break;
         case K_PUSH: vh_buf_printf(b, "SCPI_ErrorPush(%d)", (int) op->code); break;
         case K_POP: vh_buf_adds(b, "SCPI_ErrorPop()"); break;
         case K_CLEAR: vh_buf_adds(b, "SCPI_ErrorClear()"); break;
@@ -751,6 +752,10 @@ static void rnd_op(vh_rng_t * rng, op_t * op) {
         op->kind = (uint8_t) (K_SET + vh_below(rng, 3));
         op->a = (uint8_t) (SCPI_REG_SRE + vh_below(rng, NREG - 1)); /* never the summary bits of the status byte itself */
         op->val = rnd_val(rng);
+#if USE_CUSTOM_REGISTERS
+        /* user registers are written like any other: the standard summary equations hold whatever happens in the application's own groups */
+        if (vh_chance(rng, 1, 5)) { op->kind = K_SET; op->a = (uint8_t) (NREG + vh_below(rng, SCPI_REG_COUNT - NREG)); op->val = rnd_val(rng); }
+#endif
         /* ... but a device may use the bits of the status byte that no summary owns (0, 1 and whatever the register stores above bit 7) */
         if (vh_chance(rng, 1, 12)) { op->kind = (uint8_t) (vh_chance(rng, 1, 2) ? K_SETBITS : K_CLRBITS); op->a = SCPI_REG_STB; op->val &= 0xFF03; if (!op->val) op->val = 0x0200; }
     } else if (k < 57) { op->kind = K_PUSH; op->code = rnd_code(rng); }
